@@ -107,4 +107,37 @@ func registerAll() {
 		rule: "each evaluation is one simulated run of the C38 workload; every call carries a seeded RequestExtra (any subset of 20 optional fields incl. maps, vectors, trace context, execution context), actor id and TL1/TL2 body format, every handler sets a seeded ResponseExtra (any subset of 9 field groups) or an error code/description. Oracle: canonical serialisation (WriteTL1) of what the handler observed == what the client set, after exactly the documented normalisations (CustomTimeoutMs derived from the context deadline / explicit zero cleared; response extra masked by the request's flag bits; error code 0 becomes Unknown; plain errors arrive as Unknown with their text; panics as Internal); actor id and body format unchanged. The property has no fault of its own: the claim is that it holds end-to-end through the concurrent client and server under every explored schedule, pool reuse pattern (LIFO reuse exposes stale extras), reconnect and fault. Non-trivial = a contended scheduling decision and at least one completed call; distinct = distinct schedule+fault signature.",
 		assumptions: append([]string{"no_result requests are refused by the client and not generated", "the codec-level statement (pure function of the input) is not separately claimed"}, callsAssume...), components: rpcComponents,
 	}
+
+	// ---- engine gen ----
+	genRules := instrument.Rules{Conc: true, MapRange: true, FS: true, NumCPU: true}
+	genPatterns := []string{"./cmd/tl2gen", "./cmd/tlgen", "./internal/pure", "./internal/puregen/...", "./internal/purelegacy", "./internal/tlast", "./internal/tlcodegen", "./internal/tlcodegen/codecreator", "./internal/utils"}
+	builds["gen2"] = &build{name: "gen2", pkg: modPath + "/cmd/tl2gen", harness: []string{"gen/zz_verif_gen_test.go", "gen/zz_verif_adapter_tl2gen_test.go"}, patterns: genPatterns, rules: genRules}
+	builds["gen1"] = &build{name: "gen1", pkg: modPath + "/cmd/tlgen", harness: []string{"gen/zz_verif_gen_test.go", "gen/zz_verif_adapter_tlgen_test.go"}, patterns: genPatterns, rules: genRules}
+	genComponents := map[string]string{
+		"TL parser, kernel, all generators (go, php, cpp, tlo, canonical, tljson.html), OutDir.Write with its worker pool, legacy WriteToDir, cmd/tl2gen and cmd/tlgen runMain": "real code (source-rewritten at build time: map ranges, file operations, runtime.NumCPU, writer-pool goroutines/locks/channels)",
+		"disk": "stub: vrt/simfs (in memory, operation log, EIO/ENOSPC/EACCES/torn write/crash at mutating operation k); reads outside the simulated root fall through to the real disk read-only",
+		"process": "one OS process per real generation (the worker re-executes itself), as in real use",
+		"goroutine scheduling of the writer pool": "simulator (token scheduler)",
+	}
+	properties["C15"] = &property{id: "C15", engine: "gen", level: "exploration",
+		configs: []config{
+			{name: "det-tl2gen", build: "gen2", params: map[string]any{"mode": "c15"}, quick: tierCfg{wallSec: 40}, thorough: tierCfg{wallSec: 1500}},
+			{name: "det-tlgen", build: "gen1", params: map[string]any{"mode": "c15"}, quick: tierCfg{wallSec: 25}, thorough: tierCfg{wallSec: 900}},
+		},
+		rule: "each evaluation: one (schema set, language, option set) triple from the repository's own Makefile targets (go x5 incl. split-internal/TL2/byte versions/random/RPC code, php new+legacy, cpp x3, tlo, canonical, tljson.html, legacy tlo+canonical) is generated once as reference (ascending map order at every one of the rewritten map-range sites, writer pool width 1, lowest-id schedule, inputs as listed) and then 2 more times in fresh OS processes, each with a seeded map order policy (descending / seeded shuffle per range execution), writer pool width 1..8, scheduler strategy and tape for the pool's goroutines, and a seeded permutation of the input paths; the resulting file trees on the simulated disk must be byte-identical. Non-trivial = at least one variant output was compared; distinct = distinct (triple, variants, output hash) log.",
+		assumptions: []string{stdAssume, "schema content is not varied beyond the repository's schema sets (random schema synthesis is C14's subject, not a simulation target)",
+			"pointer-keyed maps are ordered by a content fingerprint; ties fall back to the runtime's order and are counted (maprange.uncontrolled_ties): they cannot cause a false alarm but weaken exact replay"},
+		components: genComponents,
+	}
+	properties["C16"] = &property{id: "C16", engine: "gen", level: "fault_enumeration",
+		configs: []config{
+			{name: "outdir-direct", build: "gen2", params: map[string]any{"mode": "c16-direct"}, quick: tierCfg{wallSec: 20, detPct: 2}, thorough: tierCfg{wallSec: 600, detPct: 1}},
+			{name: "outdir-direct-enumerate", build: "gen2", params: map[string]any{"mode": "c16-direct", "faults": "none", "enumerate": true}, quick: tierCfg{wallSec: 20}, thorough: tierCfg{wallSec: 900}},
+			{name: "outdir-real-tl2gen", build: "gen2", params: map[string]any{"mode": "c16-real"}, quick: tierCfg{wallSec: 30}, thorough: tierCfg{wallSec: 900}},
+			{name: "outdir-real-tlgen", build: "gen1", params: map[string]any{"mode": "c16-real"}, quick: tierCfg{wallSec: 20}, thorough: tierCfg{wallSec: 600}},
+		},
+		rule: "each evaluation is a history of 2..6 generations into one directory of the simulated disk, with foreign files planted (root, nested, marker removed) and disk faults (EIO, ENOSPC, EACCES, torn write, crash at mutating operation k). outdir-direct*: the real OutDir.Write driven with synthetic file maps (files appear, change, stay identical, disappear; nested directories; the documented '..' runtime path) under the token scheduler with writer pool width 1..8; outdir-real-*: the real generators switching between schema/option triples. Oracle against a path->content model: success => directory == exactly the generation's files (stale files gone, nested too); unchanged files have zero write operations in the operation log; non-empty directory without marker => refused with zero mutating operations; no mutating operation outside the output directory except the runtime-library location; failure under a fault => only whole old/new files (or a torn prefix). outdir-direct-enumerate: for each sampled history the last generation is re-run with EVERY fault kind at EVERY mutating-operation index (the single-fault space of that history is enumerated), followed by a fault-free generation that must restore exactness or refuse. Non-trivial = at least a second generation ran; distinct = distinct history log.",
+		assumptions: []string{stdAssume, "leftover empty directories are tolerated, as the code documents", "the legacy C++ writer deliberately keeps *.o files; histories do not plant them"},
+		components:  genComponents,
+	}
 }
